@@ -32,6 +32,7 @@ type CommitRec struct {
 	Wall  time.Time     // simulated wall clock (with offset)
 	WallIn time.Time    // simulated wall clock when Store was entered
 	AtIn   time.Duration // simulated (monotonic) time when Store was entered
+	CallWall time.Time   // wall clock when the committing task's outermost call in flight was invoked (zero: unknown, or the clock was stepped since)
 	Step  int
 	Cat   *lungo.Catalog
 	Prev  *lungo.Catalog // engine catalog at the time of the call
@@ -73,6 +74,9 @@ type Env struct {
 	attempt *lungo.Catalog // catalog handed to the store by the commit in progress
 	diskFaultHit map[int]bool
 	wallSteps    []wallStep // wall clock steps of the run
+	callWall     map[*simrt.Task]time.Time     // per task: wall clock at the invocation of its outermost call in flight
+	callAt       map[*simrt.Task]time.Duration // ... and the monotonic instant
+	eventWall    map[primitive.Timestamp]time.Time // per change event: a wall clock reading taken no later than its creation (the harness's own, not the event's fields)
 	diskFull     bool // every open and write fails with ENOSPC while set (the diskfull pseudo operation)
 	maxTS   primitive.Timestamp
 	tsEpoch int
@@ -250,7 +254,16 @@ func (s *SimStore) Store(c *lungo.Catalog) error {
 		e.logf("store call %d: injected failure after persisting", n)
 		return ErrInjected
 	}
-	rec := &CommitRec{Seq: len(e.commits), Task: e.sim.Current(), At: e.sim.Elapsed(), Wall: time.Now().Add(e.sim.WallOffset()), WallIn: wallIn, AtIn: atIn, Step: e.sim.Steps(), Cat: c, Epoch: e.epoch}
+	var callWall time.Time
+	if cw, ok := e.callWall[e.sim.Current()]; ok {
+		callWall = cw
+		for _, ws := range e.wallSteps {
+			if ws.At >= e.callAt[e.sim.Current()] {
+				callWall = time.Time{}
+			}
+		}
+	}
+	rec := &CommitRec{CallWall: callWall, Seq: len(e.commits), Task: e.sim.Current(), At: e.sim.Elapsed(), Wall: time.Now().Add(e.sim.WallOffset()), WallIn: wallIn, AtIn: atIn, Step: e.sim.Steps(), Cat: c, Epoch: e.epoch}
 	if len(e.commits) > 0 && e.commits[len(e.commits)-1].Epoch == e.epoch {
 		rec.Prev = e.commits[len(e.commits)-1].Cat
 	} else {
